@@ -68,6 +68,7 @@ var httpMalformed = []string{
 	"json:truncated", "json:not-json", "json:wrong-type", "json:unbalanced", "json:proto-bytes",
 	"json:empty-body", "json:whitespace-only", "json:trailing-garbage", "json:two-documents", "json:array",
 	"encoding:bad-gzip", "encoding:bad-zstd", "encoding:unknown", "both:bad-gzip+text/plain",
+	"encoding:zstd-damaged", "encoding:gzip-damaged",
 	"media:text/plain", "media:application/xml", "media:none", "media:garbage", "media:application/grpc",
 	"method:GET", "method:PUT", "method:DELETE", "method:PATCH", "method:HEAD",
 }
@@ -511,6 +512,11 @@ func (e *env) execMalformed(j *job) {
 			j.hobs = e.rawHTTPDo("POST", cs.Signal, contentTypeOf["proto"], "gzip", cs.Client.Cred, append([]byte("not a gzip stream "), validProto...))
 		case "bad-zstd":
 			j.hobs = e.rawHTTPDo("POST", cs.Signal, contentTypeOf["json"], "zstd", cs.Client.Cred, append([]byte("not zstd "), validJSON...))
+		case "zstd-damaged", "gzip-damaged":
+			// a well-formed compressed body of an incompressible payload (stored nearly verbatim) with ONE byte of the
+			// content changed in transit: the frame still parses, only its checksum tells
+			body := damagedCompressed(j.rng, strings.TrimSuffix(kind, "-damaged"), validProto)
+			j.hobs = e.rawHTTPDo("POST", cs.Signal, contentTypeOf["proto"], strings.TrimSuffix(kind, "-damaged"), cs.Client.Cred, body)
 		default:
 			j.hobs = e.rawHTTPDo("POST", cs.Signal, contentTypeOf["proto"], "br", cs.Client.Cred, validProto)
 		}
